@@ -118,6 +118,9 @@ impl Default for Task {
 }
 
 pub(crate) enum AbortReason<DBError> {
+    /// Kept for `post_execute`'s defensive branch. Workers no longer report a speculative error
+    /// directly; they replay from the committed prefix, which reports the in-order error.
+    #[allow(dead_code)]
     FatalEvmError(TxId),
     CommitError(GrevmError<DBError>),
     ParallelError { txid: TxId, message: &'static str },
